@@ -3,7 +3,9 @@ import Mixin.Model.Work
 /-! Line-protocol driver for the round-work model (C26).
 
     reset | reopen | submit (or submitx: same, marks a malformed call) node round credit n (hash ts k s1 … sk)×n | works node day
-    | offset node | ckpt node -/
+    | offset node | ckpt node
+    | rec node round id ts k s1 … sk (work record) | readr node round | subr node round credit
+    | conc <submissions of goroutine 1 separated by |> / <goroutine 2> / … -/
 namespace Mixin.Driver.Work
 open Mixin.Proto Mixin.Work
 
@@ -20,38 +22,102 @@ def parseSnaps : Nat → List Nat → Option (List Snap)
 def showNats (l : List Nat) : String :=
   if l.isEmpty then "-" else ",".intercalate (l.map toString)
 
-def submitLine (s : S) (node round credit n : String) (rest : List String) : S × String :=
-    match node.toNat?, round.toNat?, credit.toNat?, n.toNat?, rest.mapM (·.toNat?) with
-    | some node, some round, some credit, some n, some nums =>
-      if credit > 1 then (s, "bad-op") else
-      match parseSnaps n nums with
-      | some snaps =>
-        match writeRoundWork s node round snaps (credit == 1) with
-        | some s' => (s', "ok")
-        | none => (s, "panic")
-      | none => (s, "bad-op")
-    | _, _, _, _, _ => (s, "bad-op")
+def parseSubmit (node round credit n : String) (rest : List String) :
+    Option (Nat × Nat × Bool × List Snap) :=
+  match node.toNat?, round.toNat?, credit.toNat?, n.toNat?, rest.mapM (·.toNat?) with
+  | some node, some round, some credit, some n, some nums =>
+    if credit > 1 then none else
+    match parseSnaps n nums with
+    | some snaps => some (node, round, credit == 1, snaps)
+    | none => none
+  | _, _, _, _, _ => none
 
-def stepLine (s : S) (t : List String) : S × String :=
+def submitLine (x : SR) (node round credit n : String) (rest : List String) : SR × String :=
+  match parseSubmit node round credit n rest with
+  | some (node, round, credit, snaps) =>
+    match submitSR x node round snaps credit with
+    | some x' => (x', "ok")
+    | none => (x, "panic")
+  | none => (x, "bad-op")
+
+/-- split a token list at a separator token -/
+def splitAt (sep : String) (l : List String) : List (List String) :=
+  let r := l.foldr (fun t (acc : List String × List (List String)) =>
+    if t = sep then ([], acc.1 :: acc.2) else (t :: acc.1, acc.2)) ([], [])
+  r.1 :: r.2
+
+/-- `conc`: goroutines separated by `/`, the consecutive submissions of one goroutine by `|`.
+    Every goroutine has its own proposer, so the calls commute; they are applied one after the
+    other. Output: one letter per call (o = stored, p = panic), goroutines separated by `/`. -/
+def concLine (x : SR) (toks : List String) : Option (SR × String) :=
+  let groups := (splitAt "/" toks).map (splitAt "|")
+  let rec runGroup (x : SR) (out : String) : List (List String) → Option (SR × String)
+    | [] => some (x, out)
+    | sub :: rest =>
+      match sub with
+      | node :: round :: credit :: n :: r =>
+        match parseSubmit node round credit n r with
+        | some (node, round, credit, snaps) =>
+          match submitSR x node round snaps credit with
+          | some x' => runGroup x' (out ++ "o") rest
+          | none => runGroup x (out ++ "p") rest
+        | none => none
+      | _ => none
+  let rec runAll (x : SR) (outs : List String) : List (List (List String)) → Option (SR × List String)
+    | [] => some (x, outs.reverse)
+    | g :: rest =>
+      match runGroup x "" g with
+      | some (x', o) => runAll x' (o :: outs) rest
+      | none => none
+  match runAll x [] groups with
+  | some (x', outs) => some (x', "ok " ++ "/".intercalate outs)
+  | none => none
+
+def showSnap (w : Snap) : String := s!"{w.hash}:{w.ts}:{showNats w.signers}"
+
+def stepLine (x : SR) (t : List String) : SR × String :=
   match t with
-  | ["reset"] => (empty, "ok")
-  | ["reopen"] => (s, "ok")
-  | "submitx" :: node :: round :: credit :: n :: rest => submitLine s node round credit n rest
-  | "submit" :: node :: round :: credit :: n :: rest => submitLine s node round credit n rest
+  | ["reset"] => (emptySR, "ok")
+  | ["reopen"] => (x, "ok")
+  | "submitx" :: node :: round :: credit :: n :: rest => submitLine x node round credit n rest
+  | "submit" :: node :: round :: credit :: n :: rest => submitLine x node round credit n rest
+  | "conc" :: toks =>
+    match concLine x toks with
+    | some r => r
+    | none => (x, "bad-op")
+  | "rec" :: node :: round :: id :: ts :: k :: sg =>
+    match node.toNat?, round.toNat?, id.toNat?, ts.toNat?, k.toNat?, sg.mapM (·.toNat?) with
+    | some node, some round, some id, some ts, some k, some sg =>
+      if k = sg.length then (writeWork x node round ts id sg, "ok") else (x, "bad-op")
+    | _, _, _, _, _, _ => (x, "bad-op")
+  | ["readr", node, round] =>
+    match node.toNat?, round.toNat? with
+    | some node, some round =>
+      let l := readWorks x node round
+      (x, if l.isEmpty then "ok 0" else s!"ok {l.length} " ++ " ".intercalate (l.map showSnap))
+    | _, _ => (x, "bad-op")
+  | ["subr", node, round, credit] =>
+    match node.toNat?, round.toNat?, credit.toNat? with
+    | some node, some round, some credit =>
+      if credit > 1 then (x, "bad-op") else
+      match submitRead x node round (credit == 1) with
+      | some x' => (x', "ok")
+      | none => (x, "panic")
+    | _, _, _ => (x, "bad-op")
   | ["works", node, d] =>
     match node.toNat?, d.toNat? with
-    | some node, some d => (s, s!"ok {getC (node, d) s.lead} {getC (node, d) s.sign}")
-    | _, _ => (s, "bad-op")
+    | some node, some d => (x, s!"ok {getC (node, d) x.s.lead} {getC (node, d) x.s.sign}")
+    | _, _ => (x, "bad-op")
   | ["offset", node] =>
     match node.toNat? with
-    | some node => (s, s!"ok {(readOff node s.off).1}")
-    | none => (s, "bad-op")
+    | some node => (x, s!"ok {(readOff node x.s.off).1}")
+    | none => (x, "bad-op")
   | ["ckpt", node] =>
     match node.toNat? with
-    | some node => (s, s!"ok {(readOff node s.off).1} {showNats (readOff node s.off).2}")
-    | none => (s, "bad-op")
-  | _ => (s, "bad-op")
+    | some node => (x, s!"ok {(readOff node x.s.off).1} {showNats (readOff node x.s.off).2}")
+    | none => (x, "bad-op")
+  | _ => (x, "bad-op")
 
-def run : IO Unit := runLoop empty stepLine
+def run : IO Unit := runLoop emptySR stepLine
 
 end Mixin.Driver.Work
